@@ -307,3 +307,53 @@ Definition codec_component (ri mpr psv prec pt : Z) (rows : list (list Z)) : opt
 
 (* the specified result: every sample with its Pt low-order bits cleared *)
 Definition clear_low (pt s : Z) : Z := Z.shiftl (Z.shiftr s pt) pt.
+
+(* ------------------------------------------------- a whole scan, n components *)
+(* An MCU row of a lossless scan is one sample row of every component of the
+   scan (sampling factors are forced to 1).  The compressor keeps a first-row
+   flag AND a restart counter per component (jclossls.c); the decompressor
+   keeps a first-row flag per component (jdlossls.c) but ONE restart counter
+   for the scan (jddiffct.c), and process_restart resets every component. *)
+Fixpoint enc_mrow (psv prec pt : Z) (sts : list lstate) (prevs curs : list (list Z)) : list (list Z) :=
+  match sts, prevs, curs with
+  | st :: st', p :: p', c :: c' => diff_fn (fst st) psv prec pt p c :: enc_mrow psv prec pt st' p' c'
+  | _, _, _ => []
+  end.
+
+Fixpoint enc_scan_rows (ri mpr psv prec pt : Z) (sts : list lstate) (prevs : list (list Z))
+         (mrows : list (list (list Z))) : list (list (list Z)) :=
+  match mrows with
+  | [] => []
+  | mr :: t =>
+      let curs := map (scale_down (bits_of_prec prec) pt) mr in
+      enc_mrow psv prec pt sts prevs curs
+        :: enc_scan_rows ri mpr psv prec pt (map (enc_after_row ri mpr psv) sts) curs t
+  end.
+
+Fixpoint dec_mrow (psv prec pt : Z) (firsts : list bool) (prevs ds : list (list Z)) : list (list Z) :=
+  match firsts, prevs, ds with
+  | f :: f', p :: p', d :: d' => undiff_fn f psv prec pt p d :: dec_mrow psv prec pt f' p' d'
+  | _, _, _ => []
+  end.
+
+Fixpoint dec_scan_rows (ri mpr psv prec pt : Z) (firsts : list bool) (rtg : Z) (prevs : list (list Z))
+         (dmrows : list (list (list Z))) : list (list (list Z)) :=
+  match dmrows with
+  | [] => []
+  | dm :: t =>
+      let restart := negb (ri =? 0) && (rtg =? 0) in
+      let firsts1 := if restart then map (fun _ => true) firsts else firsts in
+      let rtg1 := if restart then ri / mpr else rtg in
+      let rtg2 := if ri =? 0 then rtg1 else u32 (rtg1 - 1) in
+      let us := dec_mrow psv prec pt firsts1 prevs dm in
+      map (scale_up (bits_of_prec prec) pt) us
+        :: dec_scan_rows ri mpr psv prec pt (map (fun f => after_first_row f psv) firsts1) rtg2 us t
+  end.
+
+Definition codec_scan (n : nat) (ri mpr psv prec pt : Z) (mrows : list (list (list Z)))
+  : option (list (list (list Z))) :=
+  if params_ok psv prec pt && start_pass_ok ri mpr then
+    let ds := enc_scan_rows ri mpr psv prec pt (repeat (reset_predictor ri mpr) n) (repeat [] n) mrows in
+    Some (dec_scan_rows ri mpr psv prec pt (repeat true n) (ri / mpr) (repeat [] n)
+                        (map (map (map canon_diff)) ds))
+  else None.
